@@ -14,6 +14,7 @@ func registerMore(m map[string]propSpec) {
 		{Harness: "faults", Overlay: "base", Name: "answers"},
 		{Harness: "faults", Overlay: "base", Name: "cuts", Shards: 2},
 	}}
+	m["C08"] = propSpec{Level: "model_checking", Engines: []engine{{Harness: "reg", Overlay: "base", Name: "sched", Shards: 8}}}
 	m["C06"] = propSpec{Level: "model_checking", Engines: []engine{
 		{Harness: "adapt", Overlay: "base", Name: "masks"},
 		{Harness: "adapt", Overlay: "base", Name: "order"},
